@@ -102,11 +102,12 @@ def replay_join(cases_path, out_path):
             fails.append({"clause": clause, "case": case, "observed": observed, "expected": expected, **(extra or {})})
 
     for n, c in enumerate(cases):
+        n = c.get("_n", n)
         nk = len(c["lk"][0]) if c["lk"] else (len(c["rk"][0]) if c["rk"] else 1)
-        tag = KEY_TAGS[n % len(KEY_TAGS)]
-        pal = (n // 4) % 3
-        variant = (n // 12) % 3
-        same_names = (n // 36) % 2 == 0
+        tag = (KEY_TAGS + ["intc"])[n % 5]          # "intc": distinct ints with colliding hashes
+        pal = (n // 5) % 3
+        variant = (n // 15) % 3
+        same_names = (n // 45) % 2 == 0
         lrows = [list(k) + [100 + i, (-1 if i % 2 else 7)] for i, k in enumerate(c["lk"])]
         rrows = [list(k) + [200 + j] for j, k in enumerate(c["rk"])]
         lnames = ["k%d" % (i + 1) for i in range(nk)] + ["lid", "l pay"]
